@@ -219,7 +219,7 @@ def _model_loop(E, dt, steps, msteps, dtid, k, ctx, modtext, modname):
             break
         if not D.Machine.runs(flags, req):
             continue
-        if st['form'] == 'comment':
+        if st['form'] in ('comment', 'blankprompt'):
             continue
         # ---- the statement executes
         if ns is None:
